@@ -873,7 +873,7 @@ func (s *State) writeAttr(attr *Attr, body *hclwrite.Body) error {
 		}
 		spec, ok := s.findTypeSpec(t.T)
 		if !ok {
-			v := fmt.Sprintf("sql(%q)", t.T)
+			v := fmt.Sprintf("sql(%s)", hclQuote(t.T))
 			body.SetAttributeRaw(attr.K, hclRawTokens(v))
 			break
 		}
@@ -888,7 +888,7 @@ func (s *State) writeAttr(attr *Attr, body *hclwrite.Body) error {
 			return err
 		}
 		// TODO(rotemtam): the func name should be decided on contextual basis.
-		fnc := fmt.Sprintf("sql(%q)", v.X)
+		fnc := fmt.Sprintf("sql(%s)", hclQuote(v.X))
 		body.SetAttributeRaw(attr.K, hclRawTokens(fnc))
 	case attr.V.Type().IsListType():
 		// Skip scanning nil slices ([]T(nil)) by default. Users that
@@ -989,7 +989,7 @@ func valueArgs(spec *TypeAttr, v cty.Value) []string {
 		}
 		return args
 	case v.Type() == cty.String:
-		return []string{strconv.Quote(v.AsString())}
+		return []string{hclQuote(v.AsString())}
 	case v.Type() == cty.Number && spec.Kind == reflect.Int:
 		iv, _ := v.AsBigFloat().Int64()
 		return []string{strconv.FormatInt(iv, 10)}
@@ -1040,6 +1040,12 @@ func hclRefTokens(v string) (t hclwrite.Tokens, err error) {
 		}
 	}
 	return t, nil
+}
+
+// hclQuote returns the string as a quoted HCL string literal. Unlike Go
+// quoting, it escapes the template markers ("${" and "%{") of HCL strings.
+func hclQuote(s string) string {
+	return string(hclwrite.TokensForValue(cty.StringVal(s)).Bytes())
 }
 
 func hclRawTokens(s string) hclwrite.Tokens {
